@@ -50,7 +50,9 @@ def decoder_iterations(du, dfi):
                         idx = idx + Lin.of(par[1])
                         lst = par[0]
                     # only the test that depends on the loop variable identifies the element flag
-                    dep = isinstance(elem, IntV) and any(sy in st.canon(idx).syms() for sy in st.canon(elem.lin).syms())
+                    eint = elem if isinstance(elem, IntV) else elem.items[0] if isinstance(elem, TupleV) and elem.items and \
+                        isinstance(elem.items[0], IntV) else None      # (element number, its configuration) pairs
+                    dep = eint is not None and any(sy in st.canon(idx).syms() for sy in st.canon(eint.lin).syms())
                     if dep:
                         rec.update(flag=truth, pos=idx, root=lst)
                     else:
@@ -90,6 +92,18 @@ def decoder_iterations(du, dfi):
                                 pos = pos + Lin.of(par[1])
                             lst = par[0]
                         rec.update(flag=True, pos=pos, root=lst)
+            # filters of comprehensions that ran before the loop (the collection the loop runs over): anything but the
+            # test of the element's own flag can drop a flagged element without an error
+            for e in p.events:
+                if e.kind != 'comp-filter' or e.seq >= first or not e.under(dfi.short):
+                    continue
+                cv = e.data.get('value')
+                o = getattr(cv, 'origin', None)
+                is_flag = isinstance(cv, SymV) and (
+                    isinstance(o, tuple) and o and o[0] == 'item' and isinstance(o[1], ListV)
+                    or any(isinstance(oo, tuple) and len(oo) == 4 and oo[0] == 'enumerate' and oo[3] is cv for oo in it.origin.values()))
+                if not is_flag:
+                    rec.setdefault('extra_filters', []).append(e)
             if isinstance(elem, IntV):
                 rec['bit'] = elem
             elif isinstance(elem, TupleV) and elem.items and isinstance(elem.items[0], IntV):
@@ -223,7 +237,8 @@ def check(prog, res, tier):
     simple(ob, re_ == rd == {(2, 128)}, f'both loops range over {sorted(re_)}',
            f'encoder visits {sorted(re_)}, decoder visits {sorted(rd)} (expected elements 2..127, i.e. range(2, 128), on both sides)',
            {'encoder': str(sorted(re_)), 'decoder': str(sorted(rd))},
-           undecided=None if re_ and rd else 'element loops not recognised')
+           undecided=None if re_ and rd and not any(x is None for r in (re_ | rd) for x in r)
+           else 'element loops not recognised (no bounds for the element number were derived)')
     res.add(ob)
 
     # ---- C01.b bitmap position agreement
